@@ -180,7 +180,7 @@ def run_parent(prop, tier, seed, nshards, replay=None):
             break
     inconcl = []
     for mon in info["deciding"]:
-        if m["evals"].get(mon, 0) == 0:
+        if not replay and m["evals"].get(mon, 0) == 0:  # a replay re-runs one case only
             inconcl.append(f"monitor={mon} reason=never-reached")
     for i, why, txt in dead:
         inconcl.append(f"shard={i} reason={why}")
